@@ -24,7 +24,7 @@ Qed.
 Print Assumptions C02_boolean.
 
 (** a quoted keyword matches iff its text occurs somewhere in the line (a `*` inside quotes is literal),
-    character by character and case-sensitively ([pchar_exact]), a space standing for any whitespace *)
+    character by character and case-sensitively ([pchar_exact]), a space being a space *)
 Theorem C02_quoted_keyword : forall pat t,
   kw_is_match KExact pat t = true <->
   exists pre m post, t = pre ++ m ++ post /\ seg_eq pchar_exact pat m = true.
@@ -52,7 +52,7 @@ Print Assumptions C02_literal_characters.
 
 (** ... and exactly themselves inside quotes *)
 Theorem C02_quoted_literal_characters : forall p c, p <> 32 -> pchar_exact p c = true -> p = c.
-Proof. exact pchar_exact_literal. Qed.
+Proof. intros p c _. apply pchar_exact_literal. Qed.
 Print Assumptions C02_quoted_literal_characters.
 
 Example C02_example :
